@@ -208,6 +208,55 @@ func checkC13(c *Ctx, r *Report) {
 		}
 	}
 
+	// the record handed out with the identification event: a record that consumeSignedPeerRecord refused (foreign key,
+	// foreign PeerID, not a peer record) does not travel on in EvtPeerIdentificationCompleted.SignedPeerRecord
+	if f := c.Fn(ids("consumeMessage")); f != nil {
+		stores := findInstrs(f, func(in ssa.Instruction) bool {
+			_, ok := in.(*ssa.Store)
+			return ok && isFieldWrite(in, "core/event.EvtPeerIdentificationCompleted.SignedPeerRecord")
+		})
+		for _, call := range callsIn(f, ids("consumeSignedPeerRecord")) {
+			refused := edgeNil(func(v ssa.Value) bool { ci, i := resultOf(v); return ci == call && i == 1 }, false)
+			var failEdges []CFGEdge
+			for _, b := range blocksDeep(f) {
+				for sx := range b.Succs {
+					if refused(b, sx) {
+						failEdges = append(failEdges, CFGEdge{b, sx})
+					}
+				}
+			}
+			for _, st := range stores {
+				key := ids("consumeMessage") + ": a refused signed record is not handed out with the identification event"
+				v := strip(st.(*ssa.Store).Val)
+				if isNilConst(v) {
+					r2.OK(key, instrPos(st), 1, "the event carries no record")
+					continue
+				}
+				if len(failEdges) == 0 {
+					r2.OK(key, instrPos(st), 1, "not decided: the refusal is not tested in this function")
+					continue
+				}
+				var w string
+				var n int
+				if phi, isPhi := v.(*ssa.Phi); isPhi {
+					es := phiEdgesWhere(phi, func(v ssa.Value) bool { return !isNilConst(strip(v)) })
+					isE := edgeSet(es)
+					for _, fe := range failEdges {
+						if isE(fe.B, fe.Succ) {
+							w = "the refusal edge itself carries the record on"
+						}
+					}
+					if w == "" {
+						w, n = (&Cut{Fn: f, FromEdges: failEdges, TargetEdge: isE}).Run(c)
+					}
+				} else {
+					w, n = (&Cut{Fn: f, FromEdges: failEdges, Target: isInstr(st)}).Run(c)
+				}
+				r2.Check(w == "", key, instrPos(st), n+1, "", "a record signed by (or naming) another peer is published as this peer's", w)
+			}
+		}
+	}
+
 	// ---- R3 ---------------------------------------------------------------
 	r3 := r.Rule("C13-R3", "E1", 2, "a received public key is stored only past IDFromPublicKey(key) == remote peer (or when the connection has no authenticated peer)")
 	if f := r3.need(ids("consumeReceivedPubKey")); f != nil {
